@@ -8,6 +8,7 @@ import (
 	"math/rand/v2"
 	"os"
 	"path/filepath"
+	"sort"
 	"time"
 
 	wt "github.com/hnakamur/whispertool"
@@ -937,11 +938,17 @@ func (lr *libRun) c02Write(op LibOp, pts []model.Pt, now int64, pre, post []mode
 			if len(dropped) > 0 {
 				return
 			}
+			for _, p := range pts {
+				if p.T > now {
+					return
+				}
+			}
 			id = -1
+			multi := false
 			for a, sh := range shares {
 				if len(sh) > 0 {
 					if id >= 0 {
-						return
+						multi = true
 					}
 					id = a
 				}
@@ -949,10 +956,11 @@ func (lr *libRun) c02Write(op LibOp, pts []model.Pt, now int64, pre, post []mode
 			if id < 0 {
 				return
 			}
-			for _, p := range pts {
-				if p.T > now {
-					return
+			if multi {
+				if callErr == nil {
+					lr.c02Multi(shares, pre, post)
 				}
+				return
 			}
 		}
 		e.Probe("best-routed-write-judged")
@@ -1306,3 +1314,93 @@ func copyFile(dst, src string) error {
 }
 
 var _ = bytes.Equal
+
+// c02Multi judges a best-routed batch whose points went to two or more
+// archives. Whatever the order of writes and recomputations inside the call,
+// when it returns every coarser slot covering a point that was written or
+// recomputed one level below holds the aggregate of what that level holds now
+// (unless the batch wrote the slot directly), provided the known fraction
+// reaches xFilesFactor.
+func (lr *libRun) c02Multi(shares [][]model.Pt, pre, post []model.Raw) {
+	e := lr.e
+	method, xff := lr.c.Layout.Method, lr.c.Layout.Xff
+	direct := make([]map[int64]bool, len(lr.archs))
+	for a := range lr.archs {
+		direct[a] = map[int64]bool{}
+		for _, w := range model.Align(lr.archs[a], shares[a]) {
+			direct[a][w.I] = true
+		}
+	}
+	// intervals written or stored at the previous level
+	prev := direct[0]
+	for lvl := 1; lvl < len(lr.archs); lvl++ {
+		fine, coarse := lr.archs[lvl-1], lr.archs[lvl]
+		touched := map[int64]bool{}
+		for I := range prev {
+			touched[model.Floor(I, coarse.S)] = true
+		}
+		// two intervals of this level sharing a ring slot: the outcome depends on
+		// the order inside the call, which the statement does not fix
+		slots := map[int64]int64{}
+		for T := range touched {
+			slots[model.FloorMod(T/coarse.S, coarse.N)]++
+		}
+		for I := range direct[lvl] {
+			if !touched[I] {
+				slots[model.FloorMod(I/coarse.S, coarse.N)]++
+			}
+		}
+		for _, n := range slots {
+			if n > 1 {
+				e.Note("multi-archive-batch-with-ring-collision")
+				return
+			}
+		}
+		// a write one level below (direct or recomputed) that took the ring slot of
+		// another lap removed a value from a coarse interval recomputed earlier in
+		// the call
+		if pb := pre[lvl-1][0].I; pb != 0 {
+			for I := range prev {
+				old := pre[lvl-1][model.Index(fine, pb, I)]
+				if old.I != 0 && old.I != I && touched[model.Floor(old.I, coarse.S)] {
+					e.Note("multi-archive-batch-with-ring-collision")
+					return
+				}
+			}
+		}
+		next := map[int64]bool{}
+		for I := range direct[lvl] {
+			next[I] = true
+		}
+		var ts []int64
+		for T := range touched {
+			ts = append(ts, T)
+		}
+		sort.Slice(ts, func(i, j int) bool { return ts[i] < ts[j] })
+		for _, T := range ts {
+			if direct[lvl][T] {
+				continue
+			}
+			plan := model.PropagatePlan(fine, post[lvl-1], coarse, []int64{T}, method, xff)
+			st := plan[0]
+			if st.Known == 0 || st.Verdict <= 0 {
+				continue
+			}
+			next[T] = true
+			base := post[lvl][0].I
+			if base == 0 {
+				e.Violate("C02.propagate", "batch spread over several archives: level %d (%ds x %d) is still empty although coarse interval %d has %d of %d finer slots known (xff %v)", lvl, coarse.S, coarse.N, T, st.Known, st.Total, xff)
+				return
+			}
+			got := post[lvl][model.Index(coarse, base, T)]
+			valueFree := math.IsNaN(st.Value) && (method == 4 || method == 5)
+			if got.I != T || (!valueFree && !model.SameValue(got.V, st.Value)) {
+				e.Violate("C02.propagate", "batch spread over several archives: level %d (%ds x %d, %s, xff %v) slot of coarse interval %d holds (%d,%v); the %d known of %d finer slots it covers now aggregate to %v",
+					lvl, coarse.S, coarse.N, methodName(method), xff, T, got.I, got.V, st.Known, st.Total, st.Value)
+				return
+			}
+		}
+		e.Probe("multi-archive-batch-judged")
+		prev = next
+	}
+}
